@@ -148,6 +148,30 @@ def extract(repo):
         return [lit(g) for g in m.groups()]
     pin('exts_dir_bits', dirbits)
     extract_avx2(pin, rd)
+
+    # msp.rs (C07/C08): field widths of MspIntervalP, the length assert of scan, simple_scan's P::k() bound,
+    # the bucket casts, and the shift of Exts::from_slice_bounds
+    def msp_pins():
+        msp = rd('msp.rs')
+        st = fn_body(msp, r'pub\s+struct\s+MspIntervalP\s*<\s*P\s*>\s*\{')
+        w = {}
+        for fld in ('start', 'len', 'minimizer_pos'):
+            w[fld] = int(re.search(r'pub\s+%s\s*:\s*u(\d+)' % fld, st).group(1))
+        scan = fn_body(msp, r'pub\s+fn\s+scan\s*\(\s*&self\s*\)\s*->\s*Vec<MspIntervalP<P>>\s*\{')
+        sh = lit(re.search(r'assert!\s*\(\s*self\.seq\.len\(\)\s*<\s*1\s*<<\s*(\w+)\s*\)', scan).group(1))
+        casts = [int(re.search(r'%s\s*:\s*[^,]*?as\s+u(\d+)' % f, scan).group(1)) for f in ('minimizer_pos', 'start', 'len')]
+        simple = fn_body(msp, r'pub\s+fn\s+simple_scan\s*<[^{]*\{')
+        maxp = lit(re.search(r'assert!\s*\(\s*P::k\(\)\s*<=\s*(\w+)\s*\)', simple).group(1))
+        sb = int(re.search(r'bucket\s*:\s*slc\.bucket\(\)\s*as\s+u(\d+)', simple).group(1))
+        seqf = fn_body(msp, r'pub\s+fn\s+msp_sequence\s*<[^{]*\{')
+        mb = int(re.search(r'msp\.bucket\(\)\s*as\s+u(\d+)', seqf).group(1))
+        fsb = fn_body(exts, r'pub\s+fn\s+from_slice_bounds\s*\([^)]*\)\s*->\s*Exts\s*\{')
+        rsh = lit(re.search(r'\(\s*r_extend\s*<<\s*(\w+)\s*\)\s*\|\s*l_extend', fsb).group(1))
+        # the `as` casts of the interval synthesis must be the field types
+        if casts != [w['minimizer_pos'], w['start'], w['len']]:
+            raise ValueError('msp casts')
+        return [w['start'], w['len'], w['minimizer_pos'], sh, maxp, sb, mb, rsh]
+    pin('msp', msp_pins)
     return items, stale
 
 
@@ -297,6 +321,13 @@ def render(items):
         o.append('Definition %s : list N := %s.' % (k, nlist(items[k])))
     o.append('')
     o.append(render_avx2(items))
+    if 'msp' in items:
+        o.append('(* msp.rs: MspIntervalP field widths (start, len, minimizer_pos), the shift of the length assert of scan,')
+        o.append('   simple_scan P::k() bound and bucket width, msp_sequence bucket width, from_slice_bounds shift *)')
+        for nm, v in zip(('msp_start_bits', 'msp_len_bits', 'msp_mpos_bits', 'msp_assert_shift', 'msp_simple_max_p',
+                          'msp_simple_bucket_bits', 'msp_bucket_bits', 'msp_exts_shift'), items['msp']):
+            o.append('Definition %s : N := %d.' % (nm, v))
+        o.append('')
     return '\n'.join(o)
 
 
